@@ -35,6 +35,7 @@ STRATA = [
     ("custom-from-cs", 120, 1500),
     ("cs-config", 500, 6000),
     ("custom-config", 250, 3000),
+    ("custom-gap", 300, 4000),
     ("cs-wide", 12, 200),
 ]
 REQUIRED_EVENTS = {"any": ["c17.plan.checked", "c17.demand.checked", "c17.optimal.exact-compared",
@@ -242,6 +243,26 @@ def gen(stratum, rng, tier):
         init = _with_duplicates(rng, init)
         return {"kind": "custom", "dem": dem, "cols": sorted(cols), "init": [tuple(c) for c in init],
                 "pick": rng.choice(["best", "best", "first"]), "bp_max_iter": rng.choice([50, 1000, None])}
+    if stratum == "custom-gap":
+        # a caller-chosen optimality gap (gap_tol 1%..25%) on instances whose LP values sit just above an integer
+        # (demand q*a + r with a wide column a): the gap may relax *optimality*, never integrality or the demands
+        m = rng.randint(1, 2)
+        cols, dem = set(), []
+        for i in range(m):
+            a = rng.choice([3, 4, 5, 8, 10, 12, 20, 25, 40])
+            q = rng.randint(1, 6 if m == 1 else 3)
+            r = rng.choice([0, 1, 1, 1, 2])
+            dem.append(q * a + r)
+            cols.add(tuple(a if j == i else 0 for j in range(m)))
+            if rng.random() < 0.5:
+                cols.add(tuple(rng.randint(1, a) if j == i else rng.choice([0, 0, 1, 2]) for j in range(m)))
+        units = [tuple(1 if i == j else 0 for i in range(m)) for j in range(m)]
+        init = rng.choice([units, sorted(cols)[:m] if all(any(c[i] for c in sorted(cols)[:m]) for i in range(m)) else units])
+        if rng.random() < 0.5:
+            cols |= set(units)
+        return {"kind": "custom", "dem": dem, "cols": sorted(cols), "init": [tuple(c) for c in init],
+                "pick": rng.choice(["best", "best", "first"]), "bp_max_iter": rng.choice([50, 1000, None]),
+                "bp_kw": {"gap_tol": rng.choice([0.01, 0.05, 0.05, 0.1, 0.25])}}
     if stratum == "custom-cycles":
         # covering structures with an integrality gap (odd cycles, near-complementary pairs): deep trees in
         # which every column that covers a row ends up with a branching bound
@@ -287,7 +308,7 @@ def gen(stratum, rng, tier):
 
 # ---------------------------------------------------------------- judge
 
-def _judge(res, solver, dem, fits, opt, obs, tag):
+def _judge(res, solver, dem, fits, opt, obs, tag, gap=None):
     """fits(column) -> None if the column is admissible, else a reason."""
     st = getattr(res.status, "name", str(res.status))
     obs.outcome(f"{solver}.{st}")
@@ -335,7 +356,10 @@ def _judge(res, solver, dem, fits, opt, obs, tag):
     if total < opt:
         obs.inconc(f"cutting oracle inconsistent: valid plan with {total} rolls below DP optimum {opt} ({tag})")
         return
-    if st == "OPTIMAL" and total > opt:
+    if st == "OPTIMAL" and total > opt and gap and total * (1 - gap) < opt + 1e-9:
+        # documented relative gap: the search may stop once (incumbent - bound)/incumbent < gap_tol, bound <= optimum
+        obs.event("c17.optimal-within-requested-gap")
+    elif st == "OPTIMAL" and total > opt:
         obs.violate("c17.optimal-not-min", f"{tag}: OPTIMAL with {total} rolls, true minimum {opt}; plan={plan}")
     elif st == "FEASIBLE":
         obs.event("c17.feasible-at-optimum" if total == opt else "c17.feasible-above-optimum")
@@ -387,7 +411,7 @@ def _solve_all(case, dem, common_kw, universe, fits, opt, obs, label):
             obs.event("c17.config.cut-off-run")
         res = call(obs, fn, list(dem), what=f"solve_{solver}", budget=case.get("budget", BUDGET), **ckw)
         if not is_crash(res):
-            _judge(res, solver, dem, fits, opt, obs, f"solve_{solver} {label} {shown or ''}")
+            _judge(res, solver, dem, fits, opt, obs, f"solve_{solver} {label} {shown or ''}", gap=kw.get("gap_tol"))
             it = getattr(res, "iterations", 0) or 0
             if solver == "bp" and it:
                 obs.event("c17.bp.branched-run")
